@@ -1,82 +1,52 @@
-import LitexModel.Stream.Core
+import LitexModel.Stream.Conv
 import LitexModel.DriverLib
 import LitexModel.Bits
 /-
-  Data channels of the AXI width converters: the W and R paths are `stream.StrideConverter`s, i.e.
-  `stream._UpConverter` (narrow → wide, 1 cycle latency) and `stream._DownConverter` (wide → narrow,
-  combinational) applied lane-wise to the payload.  A wide word is a list of `ratio` lanes, lane 0 = bits of the
-  lowest byte addresses; one lane value packs the fields of one narrow word (data, and for W also strb).
-
-  _DownConverter:   first = mux == 0 ; last = mux == ratio-1
-                    source.valid = sink.valid ; source.first = sink.first & first ; source.last = sink.last & last
-                    sink.ready = last & source.ready ; source.data = lane[mux] of sink.data
-                    sync: if source.valid & source.ready: mux := 0 if last else mux + 1
-  _UpConverter:     sink.ready = ~strobe_all | source.ready ; source.valid = strobe_all
-                    load_part = sink.valid & sink.ready ; demux_last = (demux == ratio-1) | sink.last
-                    sync: if source.ready: strobe_all := 0
-                          if load_part: (demux := 0 ; strobe_all := 1) if demux_last else demux := demux + 1
-                          first/last registers: replaced on a source handshake (by the sink's flags when a part is
-                          loaded in the same cycle, else cleared), else or-ed with the sink's flags on load_part
-                          if load_part: lane[demux] := sink.data
-                    (lanes of a word flushed early by `last` keep their stale content)
+  Data channels of the AXI width converters.  `AXIUpConverter`/`AXIDownConverter` build their W and R paths from
+  `stream.StrideConverter`, i.e. `stream._UpConverter` (narrow → wide, 1 cycle latency) and
+  `stream._DownConverter` (wide → narrow, combinational) applied lane-wise to the payload.  The model therefore IS
+  the stream-converter model of `LitexModel/Stream/Conv.lean` (`Stream.upConv`, `Stream.downConv`, shared with C03),
+  with no params (`π = Unit`: the AXI converters connect id/dest/user/resp around the StrideConverter) and one
+  natural number per lane.  A wide word is the list of its `ratio` lanes, lane 0 = lowest byte addresses; a lane
+  value packs the fields of one narrow word (data, and for W also strb).  This file only adds the numeric port
+  encodings under which the real W/R channels are compared with those models.
 -/
 namespace Litex.Axi
 open Litex Litex.Stream Litex.Driver
 
-/-- `_DownConverter` (wide → narrow) with `ratio` lanes. -/
-def wDown (ratio : Nat) : Elem (List Nat) Nat Nat where
-  init := 0
-  fwd mux v t := (v, { data := t.data.getD mux 0, first := t.first && mux == 0, last := t.last && mux == ratio - 1 })
-  bwd mux _ _ r := mux == ratio - 1 && r
-  next mux v _ r := if v && r then (if mux == ratio - 1 then 0 else mux + 1) else mux
+/-- W path of `AXIUpConverter`, R path of `AXIDownConverter`. -/
+abbrev laneUp (ratio : Nat) := Stream.upConv (α := Nat) (π := Unit) ratio 0 ()
 
-structure UpState where
-  demux  : Nat
-  strobe : Bool
-  lanes  : List Nat
-  first  : Bool
-  last   : Bool
-deriving Repr, DecidableEq
-
-/-- `_UpConverter` (narrow → wide) with `ratio` lanes. -/
-def wUp (ratio : Nat) : Elem Nat (List Nat) UpState where
-  init := { demux := 0, strobe := false, lanes := List.replicate ratio 0, first := false, last := false }
-  fwd s _ _ := (s.strobe, { data := s.lanes, first := s.first, last := s.last })
-  bwd s _ _ r := !s.strobe || r
-  next s v t r :=
-    let sinkReady := !s.strobe || r
-    let load := v && sinkReady
-    let demuxLast := s.demux == ratio - 1 || t.last
-    let srcHs := s.strobe && r
-    { demux  := if load then (if demuxLast then 0 else s.demux + 1) else s.demux
-      strobe := if load && demuxLast then true else if r then false else s.strobe
-      lanes  := if load then s.lanes.set s.demux t.data else s.lanes
-      first  := if srcHs then (load && t.first) else if load then (t.first || s.first) else s.first
-      last   := if srcHs then (load && t.last) else if load then (t.last || s.last) else s.last }
+/-- W path of `AXIDownConverter`, R path of `AXIUpConverter`. -/
+abbrev laneDown (ratio : Nat) := Stream.downConv (α := Nat) (π := Unit) ratio 0
 
 /-- inputs `[sink.valid, sink.data, sink.first, sink.last, source.ready]`,
-    outputs `[sink.ready, source.valid, source.first, source.last, lane 0, …, lane ratio-1]`. -/
-def wUpNum (ratio : Nat) : NumMachine UpState where
-  init := (wUp ratio).init
+    outputs `[sink.ready, source.valid, source.first, source.last, lane 0, …, lane ratio-1]`
+    (`valid_token_count` is not a port of the AXI converters: `report_valid_token_count = False`). -/
+def wUpNum (ratio : Nat) : NumMachine (Stream.UpState Nat Unit) where
+  init := (laneUp ratio).init
   step s ins :=
     match ins with
     | [v, d, f, l, r] =>
-      let i : In Nat := { valid := n2b v, tok := { data := d, first := n2b f, last := n2b l }, ready := n2b r }
-      let o := (wUp ratio).out s i
-      some ((wUp ratio).step s i, [b2n o.ready, b2n o.valid, b2n o.tok.first, b2n o.tok.last] ++ o.tok.data)
+      let i : In (Nat × Unit) :=
+        { valid := n2b v, tok := { data := (d, ()), first := n2b f, last := n2b l }, ready := n2b r }
+      let o := (laneUp ratio).out s i
+      some ((laneUp ratio).step s i,
+            [b2n o.ready, b2n o.valid, b2n o.tok.first, b2n o.tok.last] ++ o.tok.data.lanes)
     | _ => none
   key s := toString (repr s)
 
 /-- inputs `[sink.valid, sink.first, sink.last, source.ready, lane 0, …, lane ratio-1]`,
     outputs `[sink.ready, source.valid, source.data, source.first, source.last]`. -/
 def wDownNum (ratio : Nat) : NumMachine Nat where
-  init := (wDown ratio).init
+  init := (laneDown ratio).init
   step s ins :=
     match ins with
     | v :: f :: l :: r :: lanes =>
-      let i : In (List Nat) := { valid := n2b v, tok := { data := lanes, first := n2b f, last := n2b l }, ready := n2b r }
-      let o := (wDown ratio).out s i
-      some ((wDown ratio).step s i, [b2n o.ready, b2n o.valid, o.tok.data, b2n o.tok.first, b2n o.tok.last])
+      let i : In (List Nat × Unit) :=
+        { valid := n2b v, tok := { data := (lanes, ()), first := n2b f, last := n2b l }, ready := n2b r }
+      let o := (laneDown ratio).out s i
+      some ((laneDown ratio).step s i, [b2n o.ready, b2n o.valid, o.tok.data.1, b2n o.tok.first, b2n o.tok.last])
     | _ => none
   key s := toString (repr s)
 
